@@ -740,7 +740,7 @@ def gen_grid(rng, tier):
 
 def gen_history(rng, tier):
     """seeded random multi-step histories"""
-    total = 1800 if tier == "quick" else 30000
+    total = 1800 if tier == "quick" else 24000
     for j in range(total):
         seed = rng.randrange(10 ** 9)
         nruns = rng.choice([0, 1, 1, 2, 2, 3])
@@ -804,7 +804,7 @@ def u_ring_grid(ctx):
 
 @unit(P, U_HIST, "R", bounded=True,
       note="bounded: 0..3 evolve() calls with nrep,ngen in 0..4, <=4 extra advance() generations, seeded random states "
-           "(quick 1800 / thorough 30000 cases)")
+           "(quick 1800 / thorough 24000 cases)")
 def u_ring_hist(ctx):
     ctx.rule = ("seeded random histories on one program object: 0-3 evolve calls (loginit False/True/default), stale working "
                 "state and t_cur before the first call, advance() continued after evolve, bare reset()+advance(), logbook "
